@@ -130,6 +130,19 @@ func detDocs(g *gen.G) []any {
 		m["$$zz"] = map[string]any{"$$$$": 1}
 		return []any{m}
 	}
+	if g.P(0.06) {
+		// sibling references that feed each other (a takes from b, b from c) with local keys that
+		// the far end deletes or equals: the order in which the siblings are resolved is the key order
+		n1 := g.Pick([]string{"admin", "zadmin", "aaa"})
+		if g.P(0.5) {
+			return []any{map[string]any{n1: map[string]any{"$merge": "api", "debug": true},
+				"api":      map[string]any{"$output": true, "$merge": "defaults", "debug": false, "port": 80},
+				"defaults": map[string]any{"debug": "$delete"}}}
+		}
+		return []any{map[string]any{n1: map[string]any{"$merge": "api", "port": 8080},
+			"api":      map[string]any{"$merge": "defaults", "port": 80},
+			"defaults": map[string]any{"port": 8080}}}
+	}
 	switch g.N(9) {
 	case 0: // a wide map through $encode transforms that iterate maps
 		m := map[string]any{}
